@@ -6,3 +6,4 @@ CONSTANTS
   AcrhEcho <- AcrhEchoTokens
 INVARIANT Final
 CHECK_DEADLOCK FALSE
+VIEW TraceView
